@@ -143,6 +143,25 @@ impl BlockReader {
     }
 }
 
+impl BlockReader {
+    /// the same for an LZ4 file (read_block_FileLz4)
+    #[verifier::exec_allows_no_decreases_clause]
+    pub fn lz4_fill_block(&mut self, blocksz_u: usize, bo_at: BlockOffset, blockoffset: BlockOffset, blockoffset_last: BlockOffset) -> (r: ResultS3ReadBlock)
+        requires old(self).gz.pos <= old(self).gz.data.len()
+        ensures
+            final(self).gz.data == old(self).gz.data,
+            r is Found ==> r->Found_0@ == old(self).gz.data.subrange(old(self).gz.pos as int, old(self).gz.pos + blocksz_u)
+                && final(self).gz.pos == old(self).gz.pos + blocksz_u,
+    {
+        let ghost d = self.gz.data; let ghost p0 = self.gz.pos;
+//@cut slice path=src/readers/blockreader.rs impl=BlockReader fn=read_block_FileLz4 anchor="let mut block = Block::with_capacity(blocksz_u);" take=range end_anchor="match reader.read(&mut block.as_mut_slice())" label=LZ4-FILL
+//@replace "reader.read(&mut block.as_mut_slice())" "verif_read_tail(&mut self.gz, &mut block, 0)"
+//@replace "self.count_bytes_read += size as Count;" "verif_count_add(&mut self.count_bytes_read, size as Count);"
+//@end
+        ResultS3ReadBlock::Found(BlockP::new(block))
+    }
+}
+
 /// vacuity guard: must NOT verify
 pub proof fn rgz__canary(g: GzStream)
     requires g.pos <= g.data.len(), g.data.len() == 10
